@@ -1,6 +1,7 @@
 // C14 — the std_portable.h twins of static_vector / static_string (own executable: same class names).
 #include "c14_large.hpp"
 #include "c14_static.hpp"
+#include "c14_throw.hpp"
 #include <igris/container/std_portable.h>
 
 namespace
@@ -18,5 +19,6 @@ MC_INIT
 {
     c14::register_all<Traits>();
     c14::register_large<Traits>();
+    c14::register_throwing<Traits>();
 }
 MC_MAIN
